@@ -102,6 +102,16 @@ def err(e):
 
 # ----------------------------------------------------------------------------
 # fresh gin per case
+_CACHED = {}
+
+
+def cached_gin():
+  """for engines that exercise stateless code only (the parser)"""
+  if 'gin' not in _CACHED:
+    _CACHED['gin'] = fresh_gin()
+  return _CACHED['gin']
+
+
 def fresh_gin():
   for m in [m for m in sys.modules if m == 'gin' or m.startswith('gin.')]:
     del sys.modules[m]
